@@ -16,6 +16,7 @@ import common as C
 from common import log
 
 SEP = " @@ "
+MAX_CRASHES = 4      # per slice of cases handed to the harness
 MODEL_EXE = None     # set to the driver built from the reference facts when the theorems no longer check (see common.ref_driver)
 
 
@@ -44,7 +45,14 @@ def run_impl(P, harness, cases, env=None):
     """Run the C harness over cases; restarts after a crash. Returns {caseid: (lines, crashinfo)}."""
     res = {}
     todo = list(cases)
+    ncrash = 0
     while todo:
+        if ncrash >= MAX_CRASHES:
+            # enough replays: a change that makes many cases crash or hang (40 s of watchdog each) must not keep the check
+            # busy for hours; the cases that were not run are not judged
+            for c in todo:
+                res[c["id"]] = (None, "skipped")
+            break
         lines = []
         for c in todo:
             lines.append("# " + c["id"])
@@ -57,6 +65,7 @@ def run_impl(P, harness, cases, env=None):
                 res[c["id"]] = (got.get(c["id"], []), None)
             break
         # crashed: the last case that produced a marker is the culprit
+        ncrash += 1
         done_ids = [c["id"] for c in todo if c["id"] in got]
         if not done_ids:
             res[todo[0]["id"]] = ([], "rc=%d %s" % (rc, err[-1500:]))
@@ -385,6 +394,8 @@ def main():
             mo = run_model(P, sl)
             for c in sl:
                 il, crash = im.get(c["id"], ([], "no output"))
+                if il is None:
+                    continue            # not run (see run_impl)
                 divs, tags, cov = compare_case(P, c, il, crash, mo.get(c["id"], []))
                 evals += 1
                 validated += 0 if divs else 1
@@ -396,7 +407,8 @@ def main():
                     cut = lambda l: l if len(l) <= 240 else l[:240] + "...<%d more>" % (len(l) - 240)
                     samples.append({"ops": [cut(l) for l in c["lines"][:12]], "impl": [cut(l) for l in il[:12]]})
                 div_found += divs
-            if len([d for d in div_found if d.kind in ("spec", "crash")]) > 20 or len(div_found) > 400:
+            if len([d for d in div_found if d.kind in ("spec", "crash")]) > 20 or len(div_found) > 400 or \
+                    len([d for d in div_found if d.kind == "crash"]) >= 6:
                 break
     # ---- 5: classify
     known = C.load_known()
